@@ -496,6 +496,7 @@ class Runner:
         live = Live(self.FL, self.CONF, w, init_code, active, self.conf_pool)
         out = {"executed": 0, "finding": None, "known": [], "drift": [], "queries": 0, "hits": 0}
         history = []
+        probe = False
 
         def finding(kind, key, what, i):
             out["finding"] = {"kind": kind, "key": key, "what": what, "step": i,
@@ -561,7 +562,13 @@ class Runner:
             keys = live.cache_keys()
             for k, who in sorted(keys.items()):
                 if who is None or who[0] is None:
-                    return finding("drift", "cache-key", "unexpected cache key %r [%s]" % (k, tag), i)
+                    # The property does not say how the cache labels its entries.  An entry under a label this driver cannot
+                    # attribute is noted, and from now on the ANSWERS are probed after every call (below).
+                    if not probe:
+                        out["drift"].append({"what": "cache entry under an unrecognised label %r: cacheable queries are probed after every call from here on [%s]" % (k, tag),
+                                             "act": a["act"], "c": a["c"]})
+                    probe = True
+                    continue
                 fkind, fres = self.from_scratch(live, rawkey, raw, who[0], who[1], "full")
                 entry = live.cache_entry(k)
                 if fkind != "ok" or not typed_equal(entry, fres):
@@ -592,9 +599,30 @@ class Runner:
                         del keys[k]
                         continue
                     return f
-            # (4) cached keys versus the spec (model drift only)
-            ccode = w.cache_code(set(keys.values()))
-            if ccode != tcode.split("|")[2]:
+            # (3b) unrecognised labels in the cache: whatever they hold, every query that may be answered from the cache must
+            #      still equal the from-scratch resolution (this fills the real cache; the comparison of keys below is only a note)
+            if probe:
+                for l in w.labels:
+                    for p in PLATS:
+                        for f in ("full", "lenient"):
+                            fkind, fres = self.from_scratch(live, rawkey, raw, l, p, f)
+                            try:
+                                qk, qr = "ok", live.query(l, p, f, 2)
+                            except Exception as e:
+                                qk, qr = KINDS.get(type(e).__name__, "error:" + type(e).__name__), None
+                            if qk != fkind or (qk == "ok" and not typed_equal(qr, fres)):
+                                probe_q = {"act": "Query", "c": l, "p": p, "st": -1, "x": f, "how": U, "hit": True,
+                                           "ret": dict(kind=fkind, **(project_result(fres) if fkind == "ok" else NO_RESULT))}
+                                fnd = finding("violation", "stale-%s-read-after:%s" % (f, a["act"]),
+                                              "after %s the %s query of %s on platform %s returns %s, from scratch %s (cache entries under unrecognised labels: %s) [%s]"
+                                              % (describe(a), f, w.node[l], p, show(qk, qr), show(fkind, fres),
+                                                 sorted(k for k, v in keys.items() if v is None or v[0] is None)[:3], tag), i)
+                                fnd["finding"]["replay"]["steps"] = steps[:i + 1] + [{"a": probe_q, "t": tcode}]
+                                return fnd
+                keys = live.cache_keys()
+            # (4) cached keys versus the spec (a note only: the property does not prescribe what is cached under which label)
+            ccode = w.cache_code(set(v for v in keys.values() if v is not None and v[0] is not None))
+            if ccode != tcode.split("|")[2] and len(out["drift"]) < 3:
                 out["drift"].append({"what": "after %s cached keys %s, spec %s [%s]" % (describe(a), ccode, tcode.split("|")[2], tag),
                                      "act": a["act"], "c": a["c"]})
         return out
